@@ -11,3 +11,5 @@ import Stingray.Driver.Decode
 import Stingray.Model.Layout
 import Stingray.Driver.Layout
 import Stingray.Model.Odo
+import Stingray.Model.Value
+import Stingray.Driver.Value
